@@ -529,7 +529,7 @@ func init() {
 	fw.Register(&fw.Prop{
 		ID:    "C06",
 		Level: "fault_enumeration",
-		Rule: "(a) every byte offset 0..len of small generated files (3-6 blocks) as a cut point, with 1 and 3 decoders; (b) 44 damage classes (size fields, raw_size, deflate stream, adler, blob encoding, block type, required feature, missing/short/long columns, out-of-range string indexes in 9 places, plain node group, garbage at three levels) x block position {header, first, middle, last} x decoders; (c) a non-EOF I/O error injected at every Read call index; (d) random damage inside the protobuf payload of one block with intact framing (bit flips, truncation, over-long prefixes, endless varints): no crash, no hang, neighbours exact. Each case runs in a child process so that a crash or hang is an observation of that case. " +
+		Rule: "(a) every byte offset 0..len of small generated files (3-6 blocks) as a cut point, with 1 and 3 decoders, each cut read once from a reader that reports io.EOF by an empty Read and once from one that returns it together with the last bytes; (b) 46 damage classes (size fields, raw_size off by one and far off: 0, negative, around the int32 wrap of size+10%, int32 max, deflate stream, adler, blob encoding, block type, required feature, missing/short/long columns, out-of-range string indexes in 9 places, plain node group, garbage at three levels) x block position {header, first, middle, last} x decoders; (c) a non-EOF I/O error (five flavours: plain, wrapping io.EOF, io.ErrUnexpectedEOF, wrapping context.Canceled, io.ErrClosedPipe) injected at every Read call index; (d) random damage inside the protobuf payload of one block with intact framing (bit flips, truncation, over-long prefixes, endless varints): no crash, no hang, neighbours exact. Each case runs in a child process so that a crash or hang is an observation of that case. " +
 			"Signature = cut-position class (in/after size prefix, in/after BlobHeader, in Blob, boundary; header or data block), or (damage class, position), or (chunk size, decoders) for I/O faults.",
 		Assumptions: []string{
 			"a cut at offset 0, after the header block or after any data block is a block boundary (success); anything else must end in a non-nil error",
